@@ -162,17 +162,21 @@ PROPS["C21"] = {
 PROPS["C33"] = {
     "title": "Execution limits fail cleanly",
     "kani": [("kani/query/query_api.rs", r"^c33_"), ("kani/query/plan_mid.rs", r"^c33_")],
-    "e2": ["iters"],
+    "e2": ["iters", "rangelen"],
     "functions_encoded": ["Params::check_collection_size", "Params::check_apply_rows_per_outer", "Params::note_emitted_row",
                           "executor::plan_mid::estimate_range_len"],
     "bounds": {"limits/observed": "all usize values", "range": "exact length for |start|,|end|<1000, |step|<50; unit steps and "
-               "panic-freedom on the full i64 range", "soft_timeout_ms": "0 (Instant not reached)"},
+               "panic-freedom on the full i64 range; E2: start/end over ALL i64 with the step enumerated over +-2^k (8 exponents quick, all 63 "
+               "thorough) and i64::MIN - the estimate is exact when the span fits i64 and never below half of the exact length", "soft_timeout_ms": "0 (Instant not reached)"},
     "stubs": [],
     "assumptions": ["std Mutex is uncontended (single thread)"],
-    "outside_claim": ["which operators call the checks, time-limit behaviour, bounded extra work after the error"],
+    "outside_claim": ["which operators call the checks, time-limit behaviour, bounded extra work after the error",
+                      "range steps that are not +-2^k on the full bound range (128-bit division by an odd constant does not finish in z3)"],
     "level_text": "Bounded model checking (Kani/CBMC) of the limit arithmetic: a resource-limit error is returned iff the observed "
                   "count exceeds the effective limit, the default-only relaxations apply only to the named stages under default "
-                  "configuration, the row counter saturates; estimate_range_len is exact on the stated ranges. Partial.",
+                  "configuration, the row counter saturates; estimate_range_len is exact on the stated ranges; by MIR symbolic execution "
+                  "(z3) over all i64 bounds it is exact whenever the span fits i64 and never below half of the exact length (so a range "
+                  "far above the collection limit can not pass the guard). Partial.",
     "level_note": "Trusted: Kani/CBMC/CaDiCaL. Guard placement in operators is decided separately (E2 O3) or outside.",
     "design_ref": "DESIGN.md section 3, C33",
 }
@@ -202,7 +206,7 @@ PROPS["C25"] = {
 PROPS["C18"] = {
     "title": "Growing one structure never corrupts another",
     "kani": [("kani/storage/idmap.rs", r"^c18_"), ("kani/storage/pager.rs", r"^c18_")],
-    "e2": ["idmap", "pager"],
+    "e2": ["idmap", "pager", "blob"],
     "functions_encoded": ["nervusdb_storage::idmap::i2e_location", "pager::Bitmap::{new,get_bit,set_bit,find_free_in_range}",
                           "E2: pager::Pager::{allocate_page, ensure_allocated, free_page, read_page, write_page, validate_data_page_id, "
                           "flush_meta_and_bitmap}, idmap::write_i2e_record"],
@@ -412,8 +416,9 @@ PROPS["C02"] = {
 PROPS["C32"] = {
     "title": "Node identities are unique and allocation never fails",
     "kani": [],
-    "e2": ["c32"],
-    "functions_encoded": ["executor::create_delete_ops::execute_create_from_rows (external-id expression, entered arm-locally at Utc::now())"],
+    "e2": ["c32", "idmap"],
+    "functions_encoded": ["executor::create_delete_ops::execute_create_from_rows (external-id expression, entered arm-locally at Utc::now())",
+                          "idmap::IdMap::load + read_i2e_record + i2e_location + I2eRecord::decode (identity table rebuilt on open)"],
     "bounds": {"evaluations": "two evaluations of the id expression; counters < 2^31, clock readings in [0, 2^62) ns",
                "scenarios": "same statement / monotone clock; two statements / monotone clock; one statement / clock stepping back"},
     "stubs": ["Utc::now() + timestamp_nanos_opt() = fresh symbolic i64 (the symbolic clock), or None (out-of-range clock)"],
